@@ -535,6 +535,8 @@ func (w *Worker) makeWitness(ex *Exec) {
 
 type harnessResult struct {
 	Name      string
+	Pkg       string
+	XChecks   []xcheck
 	Stats     runStats
 	Covers    []string
 	Missing   []string
@@ -611,7 +613,7 @@ func exploreHarness(prog *ssa.Program, fn *ssa.Function, opt runOpts, known []kn
 		}
 		w.solver.Close()
 	}
-	res := &harnessResult{Name: fn.Name(), Stats: sh.stats, Inconcl: sh.inconcl, Outside: sh.outside, Cands: sh.cands, Witnesses: sh.witnesses,
+	res := &harnessResult{Name: fn.Name(), XChecks: sh.xchecks, Stats: sh.stats, Inconcl: sh.inconcl, Outside: sh.outside, Cands: sh.cands, Witnesses: sh.witnesses,
 		Wall: time.Since(t0).Seconds(), Workers: opt.workers}
 	for c := range sh.covers {
 		res.Covers = append(res.Covers, c)
